@@ -35,7 +35,11 @@ def check_case(case, out, part, variant):
                     continue
                 v = exposed[f]["value"]
                 part.count("fields compared")
-                if isinstance(exp, Fraction):
+                if isinstance(exp, bool):
+                    got = v.get("val") if isinstance(v, dict) else v
+                    if got != ("True" if exp else "False"):
+                        fails.append(("C17", "field-value/initialiser", "%s: boolean field %s.%s should be %s but is %s" % (stage, n, f, exp, got)))
+                elif isinstance(exp, Fraction):
                     got = solverlib.rat(v)
                     if got != (exp, Fraction(0)):
                         fails.append(("C17", "field-value/" + ("initialiser" if any(nm == f and init is not None for a in cl.ancestors() for k, t, nm, init in a.fields) else "constructor"),
